@@ -1757,6 +1757,18 @@ var c11edges = []string{
 	// the two defects named in the property text
 	"F:    iterate (x)(length: 1, advance: 1, unroll: 1) {}",
 	"S:pub func foo.bar(x: base.u32[..= 10]) base.u32 {\n    return 0\n}",
+	// shapes the program generator of C01/C04 met: accepted programs whose emitted C did not compile
+	"S:pub func foo.sat8(a: base.u8, b: base.u8) base.u8 {\n    return args.a ~sat+ args.b\n}",
+	"S:pub func foo.sat16(a: base.u16, b: base.u16) base.u16 {\n    return args.a ~sat- args.b\n}",
+	"S:pub func foo.sat32(a: base.u32, b: base.u32) base.u32 {\n    return args.a ~sat+ args.b\n}",
+	"S:pub func foo.sat8eq!(a: base.u8) base.u8 {\n    var t : base.u8\n    t = 250\n    t ~sat+= args.a\n    t ~sat-= 3\n    return t\n}",
+	"S:pub func foo.cp?(src: base.io_reader, dst: base.io_writer) {\n    this.x = args.dst.limited_copy_u32_from_reader!(up_to: 4, r: args.src)\n}",
+	"S:pub func foo.cp2!(src: base.io_reader, dst: base.io_writer) {\n    this.x = args.dst.limited_copy_u32_from_reader!(up_to: 4, r: args.src)\n}",
+	"S:pub func foo.w16?(dst: base.io_writer) {\n    args.dst.write_u16le?(a: 7)\n}",
+	"S:pub func foo.w24?(dst: base.io_writer) {\n    args.dst.write_u24be?(a: 7)\n}",
+	"S:pub func foo.w32?(dst: base.io_writer) {\n    args.dst.write_u32be?(a: 7)\n}",
+	"S:pub func foo.w64?(dst: base.io_writer) {\n    args.dst.write_u64le?(a: 7)\n    args.dst.write_u8?(a: 7)\n}",
+	"S:pub func foo.isz() base.bool {\n    return this.x == 0\n}",
 	// iterate
 	"F:    iterate ()(length: 1, advance: 1, unroll: 1) {\n    }",
 	"F:    iterate (it = args.data)(length: 1, advance: 1, unroll: 1) {\n    }",
